@@ -31,6 +31,8 @@ def shards(tier, seed):
     for i in range(parts):
         out.append(("enum_%d" % i, dict(kind="enum", part=i, parts=parts, top=80 if q else 512, jmax=12 if q else 16, extra=0 if q else 200)))
     out.append(("adversarial", dict(kind="adv")))
+    out.append(("child_opt_adversarial", dict(kind="adv", _pyopt="opt+hashseed")))
+    out.append(("child_opt_seed", dict(kind="seed", top=128, _pyopt="opt+hashseed")))
     for c in lib.pick_curves(tier, seed, extra=3):
         out.append(("keys_%s" % c.name, dict(kind="keys", cname=c.name, count=6 if q else 60)))
     out.append(("toykeys", dict(kind="toykeys", count=4 if q else 12)))
